@@ -2,7 +2,7 @@
 From Verif Require Export Percolator.OnePC.
 
 Lemma ctsd_acct : forall s s' r T p st T0, stepr s (ECtsDeliver r T p st) = Ok s' ->
-  (forall m, kget s T p = Locked m -> m = 0) -> same_acct (getc s T0) (getc s' T0).
+  (st = StRolledBack -> forall m, kget s T p = Locked m -> m = 0) -> same_acct (getc s T0) (getc s' T0).
 Proof.
   intros s s' r T p st T0 H NL. destruct (N.eq_dec T T0) as [<- | Hne].
   2: { rewrite (stepr_getc_other _ _ _ T0 H); [apply same_acct_refl | cbn [txn_of]; congruence]. }
@@ -11,7 +11,7 @@ Proof.
   - destruct (step_key _ _ _ _) as [s2 |] eqn:E; try discriminate. okinv H. rewrite (step_key_getc _ _ _ _ _ T E). apply same_acct_refl.
   - destruct (step_key _ _ _ _) as [s2 |] eqn:E; try discriminate. okinv H. rewrite (step_key_getc _ _ _ _ _ T E). apply same_acct_refl.
   - assert (Ea : match kget s T p with Locked m0 => negb (m0 =? 0) | _ => false end = false).
-    { destruct (kget s T p) eqn:Ek; auto. rewrite (NL m eq_refl). reflexivity. }
+    { destruct (kget s T p) eqn:Ek; auto. rewrite (NL eq_refl m eq_refl). reflexivity. }
     rewrite Ea in H. destruct (step_key _ _ _ _) as [s2 |] eqn:E; try discriminate. okinv H.
     rewrite (step_key_getc _ _ _ _ _ T E). apply same_acct_refl.
 Qed.
@@ -23,7 +23,7 @@ Proof.
   pose proof (stepr_kevos s (ECtsDeliver r T p st) s' eq_refl H) as K. pose proof (stepr_lists _ _ _ H) as [Ls [Ld _]].
   apply (oinv_stable s s' T); [| | | | | | exact O].
   - intros k. apply K.
-  - eapply ctsd_acct; eauto. intros m E. exfalso. eapply (o_nolock _ _ O); eauto.
+  - eapply ctsd_acct; eauto. intros _ m E. exfalso. eapply (o_nolock _ _ O); eauto.
   - intros. destruct Ls as [Ls | Ls]; rewrite Ls in H0; auto. destruct H0 as [H0 | H0]; auto. discriminate H0.
   - intros. destruct Ls as [Ls | Ls]; rewrite Ls in H0; auto. destruct H0 as [H0 | H0]; auto. discriminate H0.
   - intros. destruct Ld as [Ld | [e' [R1 Ld]]]; rewrite Ld in H0; auto. destruct H0 as [H0 | H0]; auto. subst e'.
@@ -74,9 +74,10 @@ Proof.
   - (* told ok: dead only through an earlier rollback_send *)
     apply (o_dead _ _ O). destruct H as [H | H]; [discriminate H | right; auto].
   - (* told ok: the primary is committed *)
-    apply orb_true_iff in C1. destruct C1 as [C1 | C1]; [apply orb_true_iff in C1; destruct C1 as [C1 | C1] |]; b2p.
+    match goal with Hx : negb (cn _ FPcOk =? 0) || _ || _ = true |- _ => rename Hx into CR end.
+    apply orb_true_iff in CR. destruct CR as [CR | CR]; [apply orb_true_iff in CR; destruct CR as [CR | CR] |]; b2p.
     + exists (cn (getc s T) FPcOk). apply (l_pcok _ _ L); auto.
-    + destruct (o_1pcts _ _ O C1) as [r [ks [m E]]]. exists (cn (getc s T) F1pcTs). apply (o_entry _ _ O _ _ _ _ E).
+    + destruct (o_1pcts _ _ O CR) as [r [ks [m E]]]. exists (cn (getc s T) F1pcTs). apply (o_entry _ _ O _ _ _ _ E).
       apply (o_prim_all s T L Hm).
     + assert (Hp : In (cn (getc s T) FPrim) (c_pwok (getc s T))).
       { eapply subset_In; eauto. apply (l_prim _ _ L Hm). }
@@ -179,10 +180,10 @@ Proof.
   - destruct (R10 k) as [E1 [E2 [E3 E4]]]. rewrite E1, E2, E3, E4. destruct (o_cnt _ _ HO k) as [A B]. unfold kc in *. split; auto.
     destruct x as [m o | kd |]; try lia.
     + rewrite Hcp in C1. cbn [negb orb] in C1. destruct (in_dec N.eq_dec k ks) as [Hk | Hk].
-      * pose proof (forallb_In _ _ _ C1 Hk) as C2. cbn beta in C2. apply N.leb_le in C2. lia.
+      * pose proof (forallb_In _ _ _ C1 Hk) as Cx. cbn beta in Cx. apply N.leb_le in Cx. lia.
       * rewrite (occ_zero _ _ Hk). lia.
     + rewrite Hcp in C1. cbn [negb orb] in C1. destruct (in_dec N.eq_dec k ks) as [Hk | Hk].
-      * pose proof (forallb_In _ _ _ C1 Hk) as C2. cbn beta in C2. apply N.leb_le in C2. lia.
+      * pose proof (forallb_In _ _ _ C1 Hk) as Cx. cbn beta in Cx. apply N.leb_le in Cx. lia.
       * rewrite (occ_zero _ _ Hk). lia.
   - destruct (o_dead _ _ HO H) as [k0 [K1 K2]]. exists k0. split; auto. destruct (R10 k0) as [E1 [_ [E3 _]]]. rewrite E1, E3. auto.
   - destruct R11 as [R11 | [m R11]].
@@ -242,7 +243,7 @@ Proof.
   assert (Hcp : commit_point_pw (getc s T) = true) by (unfold commit_point_pw; rewrite Ht1; apply orb_true_r).
   rewrite Hcp in C1. cbn [negb orb] in C1.
   assert (Hcnt : forall k, In k ks -> kcnt (getc s T) KDlv k + occ k ks <= kcnt (getc s T) KSent k).
-  { intros k Hk. pose proof (forallb_In _ _ _ C1 Hk) as C2. cbn beta in C2. apply N.leb_le in C2. auto. }
+  { intros k Hk. pose proof (forallb_In _ _ _ C1 Hk) as Cx. cbn beta in Cx. apply N.leb_le in Cx. auto. }
   assert (Hall : forall k, In k (c_all (getc s T)) -> In k ks) by (apply (o_send _ _ HO _ _ _ _ _ _ _ _ Ce1)).
   (* a closed key cannot be delivered to any more *)
   assert (NoDead : forall k0, In k0 (c_lm (getc s T)) -> kcnt (getc s T) KSent k0 = kcnt (getc s T) KNegD k0 -> False).
